@@ -46,7 +46,14 @@ type recField struct {
 	t    ty
 }
 
-type opq struct{ name, typ string }
+type opq struct {
+	name, typ string
+	// for an opaque INTERFACE method: the interface-typed parameter it is called on and the
+	// method; a caller that passes a value of a concrete type for that parameter instantiates
+	// the opaque parameter with the concrete method (static devirtualisation)
+	ifaceVar *types.Var
+	method   *types.Func
+}
 
 type unit struct {
 	obj     *types.Func
@@ -66,6 +73,8 @@ type unit struct {
 	opaque  []opq
 	mutated []*types.Var
 	state   int
+	fueled  bool         // contains a for-cond loop (or calls a function that does): takes (fuel : nat), returns option
+	resTys  []types.Type // effective result types (an interface{} result all of whose returns have one concrete type has that type)
 }
 
 type Tr struct {
@@ -174,6 +183,26 @@ type fctx struct {
 	retTy  string                      // Coq type of the value the current return continuation produces
 	retK   func(vals []string) string  // what a return statement produces
 	recvOb *types.Var
+	rawTy   string                     // Coq type of the function's result tuple (without option)
+	retWrap func(r string) string      // a return of the (tupled) value r in the current context
+	fuelOut func() string              // "out of fuel" in the current context (fueled functions only)
+}
+
+// addOpq registers an opaque parameter of the function being translated; one name must have
+// one type (and, for interface methods, one interface value).
+func (c *fctx) addOpq(o opq, p token.Pos) {
+	if old, ok := c.opq[o.name]; ok {
+		if old.typ != o.typ {
+			c.fail(p, "opaque parameter %s is used at two types (%s and %s)", o.name, old.typ, o.typ)
+		}
+		if old.ifaceVar != nil && o.ifaceVar != nil && old.ifaceVar != o.ifaceVar {
+			c.fail(p, "opaque interface method %s is called on two different interface values (%s and %s)", o.name, old.ifaceVar.Name(), o.ifaceVar.Name())
+		}
+		if o.ifaceVar == nil {
+			o.ifaceVar, o.method = old.ifaceVar, old.method
+		}
+	}
+	c.opq[o.name] = o
 }
 
 func (c *fctx) fail(p token.Pos, f string, a ...interface{}) {
@@ -186,7 +215,7 @@ func init() {
 	for _, w := range strings.Fields(`as at cofix else end exists exists2 fix for forall fun if IF in let match mod Prop return Set then Type using where with
 		fst snd fold_left map rev seq nth length negb andb orb true false None Some pair nil cons inject_Z Qred Qabs Qfloor Qceiling
 		Qltb Qleb Qeqb QofN repeat combine app Z N Q nat bool list option unit tt S O xH xI xO Z0 Zpos Zneg N0 Npos Qmake
-		Qplus Qminus Qmult Qdiv Qopp Qinv Qnum Qden Qle_bool Qeq_bool id`) {
+		Qplus Qminus Qmult Qdiv Qopp Qinv Qnum Qden Qle_bool Qeq_bool id fuel Go_next Go_ret Go_fuel`) {
 		reserved[w] = true
 	}
 }
@@ -622,6 +651,8 @@ func (c *fctx) function() {
 		params = append(params, prm{pn, c.coqTy(t, v.Pos())})
 	}
 	// results
+	u.resTys = c.effectiveResults(d, sig)
+	u.fueled = c.needsFuel(d.Body)
 	var rts []string
 	for _, v := range ptrs {
 		rts = append(rts, c.coqTy(c.typeOf(v.Type(), v.Pos()), v.Pos()))
@@ -629,7 +660,7 @@ func (c *fctx) function() {
 	named := false
 	for i := 0; i < sig.Results().Len(); i++ {
 		rv := sig.Results().At(i)
-		t := c.typeOf(rv.Type(), d.Pos())
+		t := c.typeOf(u.resTys[i], d.Pos())
 		rts = append(rts, c.coqTy(t, d.Pos()))
 		if rv.Name() != "" && rv.Name() != "_" {
 			named = true
@@ -639,13 +670,20 @@ func (c *fctx) function() {
 		c.fail(d.Pos(), "function without result and without a modified pointer parameter")
 	}
 	c.retTy = strings.Join(rts, " * ")
+	c.rawTy = c.retTy
+	if u.fueled {
+		c.retWrap = func(r string) string { return "(Some " + r + ")" }
+		c.fuelOut = func() string { return "None" }
+	} else {
+		c.retWrap = func(r string) string { return r }
+	}
 	c.retK = func(vals []string) string {
 		var xs []string
 		for _, v := range ptrs {
 			xs = append(xs, c.readVar(v))
 		}
 		xs = append(xs, vals...)
-		return tuple(xs)
+		return c.retWrap(tuple(xs))
 	}
 	// named results are ordinary variables initialised to zero
 	pre := ""
@@ -655,7 +693,7 @@ func (c *fctx) function() {
 			if rv.Name() == "" || rv.Name() == "_" {
 				c.fail(d.Pos(), "mixture of named and blank results")
 			}
-			t := c.typeOf(rv.Type(), d.Pos())
+			t := c.typeOf(u.resTys[i], d.Pos())
 			if t.k == kRec {
 				pre += c.writeWhole(rv, c.record(t.rec, d.Pos()), c.zero(t, d.Pos()))
 				continue
@@ -688,10 +726,17 @@ func (c *fctx) function() {
 	for _, o := range ops {
 		fmt.Fprintf(&sb, " (%s : %s)", o.name, o.typ)
 	}
+	if u.fueled {
+		sb.WriteString(" (fuel : nat)")
+	}
 	for _, p := range params {
 		fmt.Fprintf(&sb, " (%s : %s)", p.name, p.typ)
 	}
-	fmt.Fprintf(&sb, " : %s :=\n%s.\n", c.retTy, indent(pre+body, "  "))
+	rt := c.rawTy
+	if u.fueled {
+		rt = "option (" + rt + ")"
+	}
+	fmt.Fprintf(&sb, " : %s :=\n%s.\n", rt, indent(pre+body, "  "))
 	u.text = sb.String()
 }
 
@@ -792,6 +837,10 @@ func (c *fctx) assigned(n ast.Node) []envKey {
 			if call, ok := s.X.(*ast.CallExpr); ok {
 				if o := c.mutatedReceiver(call); o != nil {
 					add(c.allKeys(o))
+				} else if f := c.calledFunc(call); f != nil && len(call.Args) == 1 {
+					if _, isOpaque := c.opaqueName(f); isOpaque && f.Type().(*types.Signature).Results().Len() == 0 {
+						add(c.keysOf(call.Args[0])) // in-place opaque function (sort.Float64s)
+					}
 				}
 			}
 		case *ast.FuncLit:
@@ -940,6 +989,18 @@ func (c *fctx) stmts(list []ast.Stmt, k func() string) string {
 					}
 				}
 			}
+		} else if call, isCall := unparen(s.Results[0]).(*ast.CallExpr); len(s.Results) == 1 && isCall && c.u.fueled && c.fueledCallee(call) != nil {
+			cu := c.fueledCallee(call)
+			f := c.calledFunc(call)
+			term, mut := c.fueledCallTerm(cu, call, f)
+			if mut != nil {
+				c.fail(s.Pos(), "return of a call that updates its receiver")
+			}
+			names := make([]string, c.sig.Results().Len())
+			for i := range names {
+				names[i] = c.fresh("r")
+			}
+			return fmt.Sprintf("match %s with\n| None => %s\n| Some %s => %s\nend", term, c.fuelOut(), matchPattern(names), c.retK(names))
 		} else if len(s.Results) == 1 && c.sig.Results().Len() > 1 {
 			// return f() with a multi-valued f
 			names := make([]string, c.sig.Results().Len())
@@ -949,7 +1010,7 @@ func (c *fctx) stmts(list []ast.Stmt, k func() string) string {
 			return fmt.Sprintf("let %s := %s in\n%s", pattern(names), c.callMulti(s.Results[0], len(names)), c.retK(names))
 		} else {
 			for i, e := range s.Results {
-				vals = append(vals, c.exprAs(e, c.sig.Results().At(i).Type()))
+				vals = append(vals, c.exprAs(e, c.u.resTys[i]))
 			}
 		}
 		return c.retK(vals)
@@ -993,6 +1054,11 @@ func (c *fctx) stmts(list []ast.Stmt, k func() string) string {
 		}
 		return out + next()
 	case *ast.AssignStmt:
+		if c.u.fueled {
+			if out, ok := c.fueledAssign(s, next); ok {
+				return out
+			}
+		}
 		return c.assign(s) + next()
 	case *ast.IncDecStmt:
 		t := c.typeOf(c.info.TypeOf(s.X), s.Pos())
@@ -1011,12 +1077,33 @@ func (c *fctx) stmts(list []ast.Stmt, k func() string) string {
 			if !ok {
 				c.fail(s.Pos(), "panic(...) (no \"panic\" directive for this target group)")
 			}
-			c.opq[name] = opq{name, c.retTy}
-			return name
+			c.addOpq(opq{name: name, typ: c.rawTy}, s.Pos())
+			return c.retWrap(name)
 		}
 		call, ok := s.X.(*ast.CallExpr)
 		if !ok {
 			c.fail(s.Pos(), "expression statement")
+		}
+		if c.u.fueled {
+			if cu := c.fueledCallee(call); cu != nil {
+				f := c.calledFunc(call)
+				term, mut := c.fueledCallTerm(cu, call, f)
+				if mut == nil {
+					c.fail(s.Pos(), "call statement whose effect is not an update of a struct through its pointer receiver")
+				}
+				tmp := c.fresh(mut.Name())
+				names := []string{tmp}
+				for i := 0; i < f.Type().(*types.Signature).Results().Len(); i++ {
+					names = append(names, "_")
+				}
+				out := c.writeWhole(mut, c.recOf(mut), tmp)
+				return fmt.Sprintf("match %s with\n| None => %s\n| Some %s =>\n%s\nend", term, c.fuelOut(), matchPattern(names), indent(out+next(), "  "))
+			}
+		}
+		if o2, name, arg := c.inPlaceOpaque(call); o2 != nil {
+			// f(xs) of an opaque function without results (sort.Float64s): xs becomes  f xs
+			n := c.bind(o2, o2.Name())
+			return fmt.Sprintf("let %s := (%s %s) in\n", n, name, arg) + next()
 		}
 		o := c.mutatedReceiver(call)
 		if o == nil {
@@ -1037,7 +1124,7 @@ func (c *fctx) stmts(list []ast.Stmt, k func() string) string {
 				tys = append(tys, c.coqTy(c.typeOf(fsig.Params().At(i).Type(), a.Pos()), a.Pos()))
 			}
 			tys = append(tys, r.name+"_rec")
-			c.opq[name] = opq{name, strings.Join(tys, " -> ")}
+			c.addOpq(opq{name: name, typ: strings.Join(tys, " -> ")}, s.Pos())
 			tmp := c.fresh(o.Name())
 			out := fmt.Sprintf("let %s := (%s) in\n", tmp, strings.Join(parts, " "))
 			out += c.writeWhole(o, r, tmp)
@@ -1285,7 +1372,7 @@ func (c *fctx) ifStmt(s *ast.IfStmt, next func() string) string {
 	if s.Else != nil {
 		elseList = []ast.Stmt{s.Else}
 	}
-	if !containsReturn(s.Body) && (s.Else == nil || !containsReturn(s.Else)) && !c.containsPanic(s) {
+	if !containsReturn(s.Body) && (s.Else == nil || !containsReturn(s.Else)) && !c.containsPanic(s) && !c.containsFueled(s) {
 		// join: the arms only update variables
 		w := c.assigned(s)
 		if len(w) == 0 {
@@ -1366,7 +1453,7 @@ func (c *fctx) switchStmt(s *ast.SwitchStmt, next func() string) string {
 			clauses = append(clauses, cc)
 		}
 	}
-	joinable := !containsReturn(s.Body) && !c.containsPanic(s.Body)
+	joinable := !containsReturn(s.Body) && !c.containsPanic(s.Body) && !c.containsFueled(s.Body)
 	var w []envKey
 	if joinable {
 		w = c.assigned(s.Body)
@@ -1444,6 +1531,9 @@ func (c *fctx) loop(s ast.Stmt, body *ast.BlockStmt, items string, itemPat func(
 	if c.containsPanic(body) {
 		c.fail(body.Pos(), "panic inside a loop body")
 	}
+	if c.containsFueled(body) {
+		return c.loopCtl(body, items, itemPat, next)
+	}
 	w := c.assigned(body)
 	mayReturn := containsReturn(body)
 	if len(w) == 0 && !mayReturn {
@@ -1490,12 +1580,12 @@ func (c *fctx) loop(s ast.Stmt, body *ast.BlockStmt, items string, itemPat func(
 		return fmt.Sprintf("let %s :=\n  fold_left (fun %s %s =>\n%s)\n    %s %s in\n", pattern(names), accPat, ip, indent(b, "      "), items, initT) + next()
 	}
 	// early return: accumulator (option R * W)
-	oldK, oldTy := c.retK, c.retTy
-	rty := oldTy
-	c.retK = func(vals []string) string { return fmt.Sprintf("(Some %s, %s)", oldK(vals), wt()) }
+	oldW, oldTy := c.retWrap, c.retTy
+	rty := c.rawTy
+	c.retWrap = func(r string) string { return fmt.Sprintf("(Some %s, %s)", r, wt()) }
 	c.retTy = "?"
 	b := c.stmts(body.List, func() string { return fmt.Sprintf("(@None (%s), %s)", rty, wt()) })
-	c.retK, c.retTy = oldK, oldTy
+	c.retWrap, c.retTy = oldW, oldTy
 	c.env = copyMap(saved)
 	ret := c.fresh("ret")
 	done := c.fresh("ret")
@@ -1518,7 +1608,7 @@ func (c *fctx) loop(s ast.Stmt, body *ast.BlockStmt, items string, itemPat func(
 				return tuple(accNames)
 			}
 			return "tt"
-		}(), indent(b, "        "), items, rty, initT, ret, rv, rv, indent(next(), "  "))
+		}(), indent(b, "        "), items, rty, initT, ret, rv, c.retWrap(rv), indent(next(), "  "))
 }
 
 func (c *fctx) rangeStmt(s *ast.RangeStmt, next func() string) string {
@@ -1606,28 +1696,42 @@ func (c *fctx) noAssign(body ast.Node, o types.Object, name string) {
 	})
 }
 
-// forStmt: for i := a; i < b; i++ (also <=, and the descending forms with > / >= and i--),
-// with a signed loop variable that the body does not assign and a bound that the body does
-// not change.
-func (c *fctx) forStmt(s *ast.ForStmt, next func() string) string {
+// countInfo: a loop of the counting form  for i := a; i < b; i++  (also <=, and the descending
+// forms with > / >= and i--), with a signed loop variable that the body does not assign and a
+// bound that the body does not change.  Every other for statement is a "while" loop and is
+// translated with explicit fuel (whileStmt).
+type countInfo struct {
+	id    *ast.Ident
+	iv    types.Object
+	start ast.Expr
+	bound ast.Expr
+	op    token.Token
+	step  int
+}
+
+func (c *fctx) countingForm(s *ast.ForStmt) *countInfo {
 	if s.Init == nil || s.Cond == nil || s.Post == nil {
-		c.fail(s.Pos(), "for loop that is not of the form  for i := a; i <cmp> b; i++/i--")
+		return nil
 	}
 	as, ok := s.Init.(*ast.AssignStmt)
 	if !ok || as.Tok != token.DEFINE || len(as.Lhs) != 1 || len(as.Rhs) != 1 {
-		c.fail(s.Init.Pos(), "for-loop initialiser other than  i := a")
+		return nil
 	}
-	id := as.Lhs[0].(*ast.Ident)
+	id, ok := as.Lhs[0].(*ast.Ident)
+	if !ok {
+		return nil
+	}
 	iv := c.info.Defs[id]
-	it := c.typeOf(iv.Type(), id.Pos())
-	if it.k != kSInt {
-		c.fail(id.Pos(), "loop variable of type %s (only signed integers)", iv.Type())
+	if iv == nil {
+		return nil
 	}
-	start := c.exprAs(as.Rhs[0], iv.Type())
+	if it, ok := c.tryType(iv.Type()); !ok || it.k != kSInt {
+		return nil
+	}
 	step := 0
 	switch p := s.Post.(type) {
 	case *ast.IncDecStmt:
-		if c.rootVar(p.X) == iv {
+		if pid, ok := unparen(p.X).(*ast.Ident); ok && c.info.Uses[pid] == iv {
 			if p.Tok == token.INC {
 				step = 1
 			} else {
@@ -1635,22 +1739,24 @@ func (c *fctx) forStmt(s *ast.ForStmt, next func() string) string {
 			}
 		}
 	case *ast.AssignStmt:
-		if len(p.Lhs) == 1 && c.rootVar(p.Lhs[0]) == iv && len(p.Rhs) == 1 {
-			if tv := c.info.Types[p.Rhs[0]]; tv.Value != nil && constant.Compare(tv.Value, token.EQL, constant.MakeInt64(1)) {
-				if p.Tok == token.ADD_ASSIGN {
-					step = 1
-				} else if p.Tok == token.SUB_ASSIGN {
-					step = -1
+		if len(p.Lhs) == 1 && len(p.Rhs) == 1 {
+			if pid, ok := unparen(p.Lhs[0]).(*ast.Ident); ok && c.info.Uses[pid] == iv {
+				if tv := c.info.Types[p.Rhs[0]]; tv.Value != nil && constant.Compare(tv.Value, token.EQL, constant.MakeInt64(1)) {
+					if p.Tok == token.ADD_ASSIGN {
+						step = 1
+					} else if p.Tok == token.SUB_ASSIGN {
+						step = -1
+					}
 				}
 			}
 		}
 	}
 	if step == 0 {
-		c.fail(s.Post.Pos(), "for-loop step other than i++ / i-- / i += 1 / i -= 1")
+		return nil
 	}
 	be, ok := unparen(s.Cond).(*ast.BinaryExpr)
 	if !ok {
-		c.fail(s.Cond.Pos(), "for-loop condition that is not a comparison of the loop variable")
+		return nil
 	}
 	op := be.Op
 	var bound ast.Expr
@@ -1660,44 +1766,88 @@ func (c *fctx) forStmt(s *ast.ForStmt, next func() string) string {
 		bound = be.X
 		op = map[token.Token]token.Token{token.LSS: token.GTR, token.GTR: token.LSS, token.LEQ: token.GEQ, token.GEQ: token.LEQ}[op]
 	} else {
-		c.fail(s.Cond.Pos(), "for-loop condition that is not a comparison of the loop variable")
+		return nil
 	}
-	// the bound must be loop-invariant
-	w := c.assigned(s.Body)
+	switch {
+	case step == 1 && (op == token.LSS || op == token.LEQ):
+	case step == -1 && (op == token.GTR || op == token.GEQ):
+	default:
+		return nil
+	}
+	// the bound must be loop-invariant: it mentions neither the loop variable nor anything the body may assign
+	okb := true
+	assignedObjs := c.assignedObjs(s.Body)
 	ast.Inspect(bound, func(n ast.Node) bool {
 		if idn, ok := n.(*ast.Ident); ok {
 			o := c.info.Uses[idn]
-			if o == iv {
-				c.fail(idn.Pos(), "loop bound mentions the loop variable")
-			}
-			for _, x := range w {
-				if x.obj == o {
-					c.fail(idn.Pos(), "loop bound %s is modified by the loop body", idn.Name)
-				}
+			if o == iv || (o != nil && assignedObjs[o]) {
+				okb = false
 			}
 		}
-		if _, ok := n.(*ast.CallExpr); ok {
-			if tv := c.info.Types[n.(*ast.CallExpr)]; tv.Value == nil {
-				if !c.isLenCall(n.(*ast.CallExpr)) && !tv.IsType() {
-					// calls in the bound are evaluated once here; accept only pure calls (all translated calls are pure)
+		return true
+	})
+	if !okb || assignedObjs[iv] {
+		return nil
+	}
+	return &countInfo{id: id, iv: iv, start: as.Rhs[0], bound: bound, op: op, step: step}
+}
+
+// assignedObjs: the root variables of all assignment targets in n (independent of c.env).
+func (c *fctx) assignedObjs(n ast.Node) map[types.Object]bool {
+	out := map[types.Object]bool{}
+	ast.Inspect(n, func(n ast.Node) bool {
+		switch s := n.(type) {
+		case *ast.AssignStmt:
+			for _, l := range s.Lhs {
+				if o := c.rootVar(l); o != nil {
+					out[o] = true
+				}
+			}
+		case *ast.IncDecStmt:
+			if o := c.rootVar(s.X); o != nil {
+				out[o] = true
+			}
+		case *ast.ExprStmt:
+			// x.M(...) may update x through a pointer receiver
+			if call, ok := s.X.(*ast.CallExpr); ok {
+				if sel, ok := call.Fun.(*ast.SelectorExpr); ok {
+					if _, isSel := c.info.Selections[sel]; isSel {
+						if o := c.rootVar(sel.X); o != nil {
+							out[o] = true
+						}
+					}
+				}
+				// f(xs) of an opaque in-place function (sort.Float64s) updates xs
+				for _, a := range call.Args {
+					if o := c.rootVar(a); o != nil {
+						out[o] = true
+					}
 				}
 			}
 		}
 		return true
 	})
-	b := c.exprAs(bound, iv.Type())
+	return out
+}
+
+func (c *fctx) forStmt(s *ast.ForStmt, next func() string) string {
+	ci := c.countingForm(s)
+	if ci == nil {
+		return c.whileStmt(s, next)
+	}
+	iv, id := ci.iv, ci.id
+	start := c.exprAs(ci.start, iv.Type())
+	b := c.exprAs(ci.bound, iv.Type())
 	var items string
 	switch {
-	case step == 1 && op == token.LSS:
+	case ci.step == 1 && ci.op == token.LSS:
 		items = fmt.Sprintf("(go_range %s %s)", start, b)
-	case step == 1 && op == token.LEQ:
+	case ci.step == 1 && ci.op == token.LEQ:
 		items = fmt.Sprintf("(go_range %s (%s + 1)%%Z)", start, b)
-	case step == -1 && op == token.GTR:
+	case ci.step == -1 && ci.op == token.GTR:
 		items = fmt.Sprintf("(go_range_down (%s + 1)%%Z (%s + 1)%%Z)", b, start)
-	case step == -1 && op == token.GEQ:
+	case ci.step == -1 && ci.op == token.GEQ:
 		items = fmt.Sprintf("(go_range_down %s (%s + 1)%%Z)", b, start)
-	default:
-		c.fail(s.Cond.Pos(), "for-loop condition %s with step %+d", be.Op, step)
 	}
 	c.noAssign(s.Body, iv, id.Name)
 	pat := func() string { return c.bind(iv, id.Name) }
@@ -1724,7 +1874,7 @@ func (c *fctx) exprAs(e ast.Expr, want types.Type) string {
 		}
 	}
 	if tv.Value != nil && want != nil {
-		return c.constant(tv.Value, c.typeOf(want, e.Pos()), e.Pos())
+		return c.constant(c.exactValue(e, tv.Value), c.typeOf(want, e.Pos()), e.Pos())
 	}
 	return c.expr(e)
 }
@@ -1781,7 +1931,7 @@ func (c *fctx) expr(e ast.Expr) string {
 	tv, has := c.info.Types[e]
 	if has && tv.Value != nil && tv.Type != nil {
 		if b, ok := tv.Type.Underlying().(*types.Basic); ok && b.Info()&types.IsString == 0 {
-			return c.constant(tv.Value, c.typeOf(tv.Type, e.Pos()), e.Pos())
+			return c.constant(c.exactValue(e, tv.Value), c.typeOf(tv.Type, e.Pos()), e.Pos())
 		}
 	}
 	switch x := e.(type) {
@@ -1799,7 +1949,7 @@ func (c *fctx) expr(e ast.Expr) string {
 		case *types.Var:
 			if name, ok := c.opaqueVar(o); ok {
 				t := c.typeOf(o.Type(), x.Pos())
-				c.opq[name] = opq{name, c.coqTy(t, x.Pos())}
+				c.addOpq(opq{name: name, typ: c.coqTy(t, x.Pos())}, x.Pos())
 				return name
 			}
 			c.fail(x.Pos(), "package-level variable %s (not constant; declare it opaque to pass it as a parameter)", x.Name)
@@ -1828,7 +1978,7 @@ func (c *fctx) expr(e ast.Expr) string {
 		if o, ok := c.info.Uses[x.Sel].(*types.Var); ok {
 			if name, ok := c.opaqueVar(o); ok {
 				t := c.typeOf(o.Type(), x.Pos())
-				c.opq[name] = opq{name, c.coqTy(t, x.Pos())}
+				c.addOpq(opq{name: name, typ: c.coqTy(t, x.Pos())}, x.Pos())
 				return name
 			}
 		}
@@ -1925,7 +2075,7 @@ func (c *fctx) expr(e ast.Expr) string {
 	case *ast.SliceExpr:
 		c.fail(x.Pos(), "slice expression a[i:j]")
 	case *ast.TypeAssertExpr:
-		c.fail(x.Pos(), "type assertion")
+		return c.typeAssert(x)
 	}
 	c.fail(e.Pos(), "expression %T", e)
 	return ""
@@ -2149,8 +2299,15 @@ func (c *fctx) callTerm(cu *unit, recv string, call *ast.CallExpr, f *types.Func
 	sig := f.Type().(*types.Signature)
 	parts := []string{cu.coqName}
 	for _, o := range cu.opaque {
-		c.opq[o.name] = o
+		if o.ifaceVar != nil {
+			parts = append(parts, c.ifaceArg(cu, o, call, f))
+			continue
+		}
+		c.addOpq(o, call.Pos())
 		parts = append(parts, o.name)
+	}
+	if cu.fueled {
+		parts = append(parts, "fuel")
 	}
 	if recv != "" {
 		parts = append(parts, recv)
@@ -2253,10 +2410,21 @@ func (c *fctx) callN(x *ast.CallExpr, nres int) string {
 		// unless the receiver is a translatable record
 		parts := []string{name}
 		var tys []string
+		var ifv *types.Var
 		if recvExpr != nil {
 			if rt, ok := c.tryType(c.info.TypeOf(recvExpr)); ok && rt.k == kRec {
 				parts = append(parts, c.expr(recvExpr))
 				tys = append(tys, c.coqTy(rt, x.Pos()))
+			} else if isInterface(c.info.TypeOf(recvExpr)) {
+				// the receiver is not passed: the opaque method stands for the method of ONE
+				// interface value, which must be a parameter of the function
+				id, isId := unparen(recvExpr).(*ast.Ident)
+				if isId {
+					ifv, _ = c.info.Uses[id].(*types.Var)
+				}
+				if ifv == nil || !c.isParam(ifv) {
+					c.fail(x.Pos(), "opaque interface method %s called on something other than an interface-typed parameter", name)
+				}
 			}
 		}
 		for i, a := range x.Args {
@@ -2268,7 +2436,12 @@ func (c *fctx) callN(x *ast.CallExpr, nres int) string {
 			rs = append(rs, c.coqTy(c.typeOf(sig.Results().At(i).Type(), x.Pos()), x.Pos()))
 		}
 		tys = append(tys, strings.Join(rs, " * "))
-		c.opq[name] = opq{name, strings.Join(tys, " -> ")}
+		c.addOpq(opq{name: name, typ: strings.Join(tys, " -> "), ifaceVar: ifv, method: f}, x.Pos())
+		if ifv == nil {
+			o := c.opq[name]
+			o.method = nil
+			c.opq[name] = o
+		}
 		return "(" + strings.Join(parts, " ") + ")"
 	}
 	// package math
@@ -2293,6 +2466,9 @@ func (c *fctx) callN(x *ast.CallExpr, nres int) string {
 	if len(cu.mutated) > 0 {
 		c.fail(x.Pos(), "call of %s, which modifies a struct through a pointer, inside an expression", cu.key)
 	}
+	if cu.fueled {
+		c.fail(x.Pos(), "call of %s, which contains a loop with fuel, inside an expression (assign its result to a variable first)", cu.key)
+	}
 	if recvExpr != nil {
 		recv = c.expr(recvExpr)
 	}
@@ -2306,7 +2482,7 @@ func (c *fctx) convert(arg ast.Expr, to types.Type, p token.Pos) string {
 		// only the representable cases
 		switch tt.k {
 		case kFloat, kSInt, kUInt:
-			return c.constant(tv.Value, tt, p)
+			return c.constant(c.exactValue(arg, tv.Value), tt, p)
 		}
 	}
 	ft := c.typeOf(c.info.TypeOf(arg), p)
